@@ -46,7 +46,7 @@ theorem run_gen (S : Conn → Prop) (Q : Conn → Prop) (T : Conn → String →
     obtain ⟨hsame, hph, hsc, hstop, hmx, hsg, hwk⟩ := prePoll_same c n hsegs
     have hans0 : ans (prePoll c n none).env.tr = ans c.env.tr := by unfold ans; rw [hsame.rd, hsame.wr]
     rcases hpoll _ (hcong _ _ hS hph hsc hstop hmx hsame) with ⟨c', hh, hl, hS', hw, ha⟩ | hq
-    · have hpoll' := hh.poll (F := 100000) (by rw [hsame.input]; exact hlen)
+    · have hpoll' := hh.pollT (by rw [hsame.input]; exact hlen)
       have hsg' : c'.env.segs = [] := hl.segs.trans hsg
       have hlen' : 6 * c'.env.tr.input.length + 26 ≤ 100000 := by
         have := hl.ts.inp
@@ -564,7 +564,7 @@ theorem run_abort_nokeep {g : Cfg} {a : Rec} {tail : Bytes} {pr : Bool} {rest : 
       · exact Or.inr ⟨c', O1, O2, hh.mono (by omega), hO, hf⟩)
     (fun c0 n0 f0 _ hsg ⟨c', O1, O2, hh, hO, hfb⟩ _ hlen0 => by
       obtain ⟨hsame, _⟩ := prePoll_same c0 n0 hsg
-      have hpoll := hh.poll (F := 100000) (by rw [hsame.input]; exact hlen0)
+      have hpoll := hh.pollT (by rw [hsame.input]; exact hlen0)
       exact ⟨c', "RET", by rw [runTask_succ, hpoll], rfl, O1, O2, hO, hfb⟩)
     (ans c.env.tr) c n fuel hst hsegs (Nat.le_refl _) hf hlen
   exact ⟨c'', O1, O2, hrun, hO, hfin⟩
